@@ -243,6 +243,7 @@ func (cs *clientState) isBlocked() bool {
 		if locked == CS_CAPTURED {
 			blocked = true
 		}
+		verifPoint("cs:checking", cs.id, "")
 		if locked != CS_CHECKING {
 			// (when another goroutine is checking, the value to put back is in its hands:
 			// writing CS_CHECKING back would leave the state stuck in it for good)
